@@ -1593,13 +1593,25 @@ func GenerateBodies(t Tape, p *Profile, n int) (*Program, []string) {
 			g.use("vararg_body_many_values")
 			c, l, a, b := g.fresh("c"), g.fresh("l"), g.fresh("a"), g.fresh("b")
 			g.prog.NFuncs++
-			fd := &FuncDef{ID: g.prog.NFuncs, IsVararg: true, Body: []Stmt{
-				&Call{Names: []string{c}, Fn: Var{"select"}, Args: []Expr{Str{"#"}, Vararg{}}},
-				&Call{Names: []string{l}, Fn: Var{"select"}, Args: []Expr{Var{c}, Vararg{}}},
-				&Call{Fn: Var{"emit"}, Args: []Expr{Str{"va"}, Var{c}, Var{l}}},
-				&Call{Names: []string{a, b}, Fn: Var{"coyield"}, Args: []Expr{Vararg{}}},
-				&Call{Fn: Var{"emit"}, Args: []Expr{Str{"va2"}, Var{a}, Var{b}}},
-				&ReturnCall{Fn: Var{"coyield"}, Args: []Expr{Var{a}, Vararg{}}}}}
+			var fd *FuncDef
+			if t.Choose(2) == 0 {
+				fd = &FuncDef{ID: g.prog.NFuncs, IsVararg: true, Body: []Stmt{
+					&Call{Names: []string{c}, Fn: Var{"select"}, Args: []Expr{Str{"#"}, Vararg{}}},
+					&Call{Names: []string{l}, Fn: Var{"select"}, Args: []Expr{Var{c}, Vararg{}}},
+					&Call{Fn: Var{"emit"}, Args: []Expr{Str{"va"}, Var{c}, Var{l}}},
+					&Call{Names: []string{a, b}, Fn: Var{"coyield"}, Args: []Expr{Vararg{}}},
+					&Call{Fn: Var{"emit"}, Args: []Expr{Str{"va2"}, Var{a}, Var{b}}},
+					&ReturnCall{Fn: Var{"coyield"}, Args: []Expr{Var{a}, Vararg{}}}}}
+			} else {
+				// named parameters in front of the varargs: the first resume may bring fewer values than there are names
+				p1, p2, p3 := g.fresh("p"), g.fresh("p"), g.fresh("p")
+				fd = &FuncDef{ID: g.prog.NFuncs, IsVararg: true, Params: []string{p1, p2, p3}, Body: []Stmt{
+					&Call{Names: []string{c}, Fn: Var{"select"}, Args: []Expr{Str{"#"}, Vararg{}}},
+					&Call{Fn: Var{"emit"}, Args: []Expr{Str{"vn"}, Var{p1}, Var{p2}, Var{p3}, Var{c}}},
+					&Call{Names: []string{a, b}, Fn: Var{"coyield"}, Args: []Expr{Var{p3}, Var{p2}, Var{p1}, Vararg{}}},
+					&Call{Fn: Var{"emit"}, Args: []Expr{Str{"vn2"}, Var{a}, Var{b}, Var{p1}, Var{p3}}},
+					&ReturnCall{Fn: Var{"coyield"}, Args: []Expr{Var{a}, Vararg{}}}}}
+			}
 			ln := g.fresh("vb")
 			gn := fmt.Sprintf("BV%d", i+1)
 			body = append(body, &Local{Names: []string{ln}, Exprs: []Expr{Func{fd}}}, &Assign{Targets: []Expr{Var{gn}}, Exprs: []Expr{Var{ln}}})
